@@ -108,6 +108,11 @@ def entries():
         "verus": "pub assume_specification[ <Ordering as PartialEq>::eq ](a: &Ordering, b: &Ordering) -> (r: bool)\n    ensures r == (*a == *b);",
         "tys": ("ord", "ord"), "call": "(({0} == {1}) as i128)", "pre": lambda a, b: True, "exp": lambda a, b: int(a == b),
     })
+    E.append({
+        "name": "Option::<&'aT>::copied",
+        "verus": "pub assume_specification<'a, T: Copy>[ Option::<&'a T>::copied ](o: Option<&'a T>) -> (r: Option<T>)\n    ensures o is None ==> r is None, o is Some ==> r == Some(*o->Some_0);",
+        "tys": ("i64",), "call": "(Some(&{0}).copied().unwrap() as i128 + None::<&i64>.copied().map(|v| v as i128).unwrap_or(0))", "pre": lambda a: True, "exp": lambda a: a,
+    })
     return E
 
 
